@@ -116,6 +116,60 @@ def api_oracle(ctx):
     ctx.sample({"kind": "api", "workloads": [w.name for w in workloads.WORKLOADS]})
 
 
+def reuse_after_failure_oracle(ctx):
+    """a call whose user function raised in the middle of the backward pass, caught by the caller; the SAME object is then used
+    again: value and gradients w.r.t. the caller's leaves still equal those of the pure form
+    (round-3 seed C09/9: the temporary substitution was not undone on an exception, the object kept a stale copy)"""
+    for w in workloads.WORKLOADS:
+        if w.name not in ("rootfinder", "equilibrium", "solve_ivp", "quad"):
+            continue
+        t1, t2 = workloads.leaves(0)
+        tick = fkinds.Ticker()
+        vs = fkinds.variants(w.F, t1, t2, tick=tick, extra_first=w.extra_first)
+        done = []
+        for v in vs:
+            if v.name != "pure" and not v.objects:
+                continue
+            try:
+                tick.reset(None)
+                out = w.forward(v)
+                nfwd = tick.n
+                tick.reset(None)
+                workloads.grads(w.forward(v), v.leaves, 1)
+                nbwd = tick.n - nfwd
+            except Exception as e:
+                continue                      # reported by api_oracle
+            for k in sorted({0, max(0, nbwd - 1)}) if nbwd > 0 else []:
+                out = w.forward(v)
+                tick.reset(k)
+                try:
+                    workloads.grads(out, v.leaves, 1)
+                except (fkinds.Ticker.Boom, Exception):
+                    pass
+                tick.reset(None)
+            done.append(v)
+        ref = None
+        for v in done:
+            try:
+                res = workloads.grads(w.forward(v), v.leaves, 1)
+            except Exception as e:
+                ctx.fail("oracle", "kinds:%s:%s:reuse-after-failed-backward:exception" % (w.name, v.name), {"workload": w.name, "kind": v.name},
+                         repr(e)[:300], "the object is usable after a failed call")
+                continue
+            ctx.count(("reuse-after-failure", w.name, v.name), nontrivial=v.name != "pure")
+            if v.name == "pure":
+                ref = res
+                continue
+            if ref is None:
+                continue
+            for nm, x, y in zip(["value", "d/dth1", "d/dth2"], ref, res):
+                if x.shape != y.shape or not torch.allclose(x, y, rtol=w.rtol, atol=w.atol):
+                    ctx.fail("oracle", "kinds:%s:%s:reuse-after-failed-backward:%s" % (w.name, v.name, nm),
+                             {"workload": w.name, "kind": v.name, "history": "backward raised in user code, same object used again"},
+                             {"pure": x, "this": y}, "same value and gradients as the pure form")
+                    break
+
+
 def check(ctx):
     cases, meta = [], []
     uniq_cases(ctx, cases, meta)
@@ -126,7 +180,9 @@ def check(ctx):
     for i in failed[:3]:
         ctx.broken("correspondence:purefn", {"case": meta[i], "coq": cases[i][:800]})
     api_oracle(ctx)
+    reuse_after_failure_oracle(ctx)
 
 
 def search(ctx):
     api_oracle(ctx)
+    reuse_after_failure_oracle(ctx)
